@@ -29,6 +29,7 @@ def run(chk, tier):
     cyc = panics.find_cycle(edges)
     chk.ob("R-ALLOC", "call-graph", cyc is None, "call graph of the decode scope is acyclic (bounded stack depth)" if cyc is None else "recursion: %s" % (cyc,), key="acyclic")
     term.check_loops(chk, prog, fns, "decode")
+    panics.check_unpaid_growth(chk, prog, fns, edges, "decode")
     from nx import interval
     nseek = term.check_seek_discipline(chk, prog, fns, interval.Engine(prog))
     chk.floor("seek sites", nseek, 2)
